@@ -13,10 +13,13 @@ from gvmon.monitors import contracts
 
 RULE = ("lines = reference rendering of (record, dialect point); the full cross product of 48 dialect points x attribute "
         "shape tuples (plain / blank-containing / each escaped reserved character / multi-valued / flag, 1..3 attributes "
-        "quick, 1..5 thorough) x extra columns x '.' coordinates is executed, then random records; non-trivial = >= 2 "
+        "quick, 1..5 thorough) x extra columns x '.' coordinates is executed, then random records, then batches of 2..4 lines (shared keys in another order / a subset / unrelated) "
+        "that are all parsed before any is printed; non-trivial = >= 2 "
         "attributes; distinct = distinct (dialect point, shape tuple, extras, dots) or distinct random line")
 REQUIRED = ["lines parsed again after editing the first result", "feature_from_line calls", "byte-identical prints", "strict=False comparisons", "_reconstruct contract evaluations",
-            "literal lines with an empty-looking attribute column compared", "lines with '%' inside a key", "quoted-dialect lines with a double quote at the edge of a value"]
+            "literal lines with an empty-looking attribute column compared", "lines with '%' inside a key", "quoted-dialect lines with a double quote at the edge of a value",
+            "prints deferred until other lines had been parsed",
+            "deferred prints whose key order differs from the most recently parsed line"]
 ASSUMPTIONS = [
     "grammar: values are non-empty, do not begin/end with a blank, reserved characters appear only as upper-case "
     "percent-escapes (gff3 / unquoted gff2) or not at all (gtf: no ; \" , controls); gff3 values contain no double quote",
@@ -156,9 +159,88 @@ def check_literal(ctx, case):
         ctx.violation(case, v)
 
 
+def check_batch(ctx, case):
+    """Several lines parsed first, printed afterwards: every Feature still gives its own line's attributes and prints
+    its own line byte for byte, whatever was parsed in between (the statement holds per line, with no proviso about
+    other calls)."""
+    from gffutils.feature import feature_from_line
+
+    lines = [M.render_line(rec, D) for rec, D in case["members"]]
+    feats = []
+    for line in lines:
+        try:
+            feats.append(feature_from_line(line, keep_order=True))
+        except Exception as ex:
+            ctx.violation(case, {"why": "feature_from_line raised %r" % (ex,), "line": line})
+            return
+        ctx.mon("feature_from_line calls")
+    order = list(range(len(lines)))
+    if case.get("reverse"):
+        order.reverse()
+    for i in order:
+        rec, line, f = case["members"][i][0], lines[i], feats[i]
+        got = [[k, list(f.attributes[k])] for k in f.attributes.keys()]
+        exp = [[k, list(v)] for k, v in rec["attrs"]]
+        if got != exp:
+            ctx.violation(case, {"why": "attributes of a Feature differ from its line after other lines were parsed",
+                                 "line": line, "member": i, "got": got, "expected": exp})
+            return
+        try:
+            printed = str(f)
+        except Exception as ex:
+            ctx.violation(case, {"why": "printing a Feature after other lines were parsed raised %r" % (ex,), "line": line})
+            return
+        if printed != line:
+            ctx.violation(case, {"why": "printed form differs from the Feature's own line after other lines were parsed",
+                                 "member": i, "line": line, "printed": printed, "all_lines": lines})
+            return
+        ctx.mon("prints deferred until other lines had been parsed")
+        if i != len(lines) - 1 and [k for k, _ in rec["attrs"]] != [k for k, _ in case["members"][-1][0]["attrs"]]:
+            ctx.mon("deferred prints whose key order differs from the most recently parsed line")
+    for v in contracts.drain():
+        ctx.violation(case, v)
+
+
+def batch_members(rng, pts):
+    """2..4 (record, dialect point) pairs; later members reuse keys of the first in another order / as a subset, or are unrelated."""
+    D0 = rng.choice(pts)
+    first = R.record(rng, D0, nmin=2, nmax=6)
+    members = [[first, D0]]
+    for _ in range(rng.randrange(1, 4)):
+        r = rng.random()
+        if r < 0.6:
+            # same keys (all, or a subset), other order, fresh columns; stay inside the grammar: no leading flag in key=value style
+            D = D0 if rng.random() < 0.7 else rng.choice(pts)
+            if D["fmt"] != D0["fmt"]:
+                D = D0      # values were generated for D0's escaping rules
+            rec = R.record(rng, D, nmin=1, nmax=1)
+            attrs = [[k, list(v)] for k, v in first["attrs"]]
+            rng.shuffle(attrs)
+            if rng.random() < 0.4:
+                attrs = attrs[:rng.randrange(1, len(attrs) + 1)]
+            if D["fmt"] in ("gff3", "gff3q") and not attrs[0][1]:
+                withv = [a for a in attrs if a[1]]
+                if not withv:
+                    continue
+                attrs.remove(withv[0])
+                attrs.insert(0, withv[0])
+            if D["repeated"]:
+                attrs = [[k, [x for x in v if x != ""]] for k, v in attrs]
+                if D["fmt"] in ("gff3", "gff3q") and not attrs[0][1]:
+                    continue
+            rec["attrs"] = attrs
+            members.append([rec, D])
+        else:
+            D = rng.choice(pts)
+            members.append([R.record(rng, D, nmin=1, nmax=6), D])
+    return members
+
+
 def execute(ctx, case):
     if case.get("kind") == "literal":
         return check_literal(ctx, case)
+    if case.get("kind") == "batch":
+        return check_batch(ctx, case)
     check_line(ctx, case["rec"], case["D"], case)
 
 
@@ -247,6 +329,14 @@ def run(ctx):
         case = {"kind": "line", "D": D, "rec": rec}
         check_line(ctx, rec, D, case)
         ctx.case((D, rec), len(rec["attrs"]) >= 2, sample=case, cls="random %s" % D["fmt"])
+    # history: several lines parsed before any of them is printed
+    for _ in range(ctx.budget(2000, 80000)):
+        members = batch_members(rng, pts)
+        if len(members) < 2:
+            continue
+        case = {"kind": "batch", "members": members, "reverse": rng.random() < 0.3}
+        check_batch(ctx, case)
+        ctx.case(("batch", members), True, sample=case, cls="batch: parse 2..4 lines, then print each")
     ctx.mon("_reconstruct contract evaluations", contracts.EVALS["parser._reconstruct"])
 
 
